@@ -10,6 +10,8 @@ ASSUMPTIONS = [
     "sample rate: None, 0, 1 and every N >= 2 (unconstrained solver integer)",
     "event script of one frame as CPython delivers it (first call, <=2 quick / <=3 thorough yield/resume pairs, final return or exception exit), "
     "with the body rebinding its parameter and creating locals between yields; environment contract as in C02 (validated there)",
+    "a second harness interleaves two live frames of the SAME generator function (three interleavings), so that per-frame versus per-code "
+    "bookkeeping is distinguished",
     "oracle: a trace is logged iff the call was sampled at its first call event; a logged trace has the entry argument types, all yields and "
     "the return exactly as an unsampled tracer would record; afterwards no container attribute of the tracer mentions the frame",
 ]
@@ -20,5 +22,8 @@ def run(tier):
     jobs = [Job("harness.c18", name, H.shards(name), 240 if tier == "quick" else 1800,
                 bounds=dict(rate="None | 0 | 1 | all N >= 2 (symbolic)", draws="4 symbolic draws", yield_resume_pairs="<=2" if tier == "quick" else "<=3",
                             functions=["gen_rebinding", "mod_func", "gen_func"], values="atoms int/str/None"),
-                rule="one path = one (rate class, draw classes, script shape, value shapes)", describe=H.describe)]
+                rule="one path = one (rate class, draw classes, script shape, value shapes)", describe=H.describe),
+            Job("harness.c18", "sampling_two", H.shards("sampling_two"), 240,
+                bounds=dict(frames="two live frames of the same generator function", interleavings=3, rate="None | 1 | all N >= 2 (symbolic)", draws="4 symbolic draws"),
+                rule="one path = (rate class, draw classes, interleaving, value shapes)", describe=H.describe)]
     return run_check(PID, tier, jobs, H.FUNCTIONS, ASSUMPTIONS)
